@@ -60,3 +60,33 @@ let () =
       let t = if s = "-" || s = "" then [] else Stdlib.List.map tok_of_shape (Stdlib.String.split_on_char ' ' s) in
       if BinTapeWf.tape_wfb t then "y" else "n" | _ -> "BADCASE")
 (* <<< a_c06 *)
+
+(* >>> a_c03: the mirror clause, run by the extracted deciders on the model's tapes *)
+let mir_flags (d : BinNums.coq_N list) (o : BinTape.tape Bytes.outcome) : string =
+  match o with
+  | Bytes.Ok t ->
+    (match BinTapeMirror.raw_lex d with
+     | Some toks -> (if BinTapeMirror.mirrorb toks t then "y" else "n") ^ (if BinTapeMirror.submirrorb toks t then "y" else "n")
+     | None -> "xx")
+  | Bytes.Err _ -> "--"
+  | _ -> crash_tag
+
+let chain (hs : string) : string =
+  let parts = S.split_on_char ';' hs in
+  let last = L.nth parts (L.length parts - 1) in
+  let n = L.length parts in
+  let d = bytes_of_hex last in
+  let o = show_res (BinTape.parse_opt d) and r = show_res (BinTape.parse_ref d) in
+  (* the n-th parse (1-based) fills tape a with the optimised parser when n is odd *)
+  let a, b = if n mod 2 = 1 then o, r else r, o in
+  Printf.sprintf "a=%s | b=%s | fo=%s | fr=%s" a b o r
+
+let () =
+  register "bt.mir" (function [h] ->
+      let d = bytes_of_hex h in
+      Printf.sprintf "opt=%s ref=%s" (mir_flags d (BinTape.parse_opt d)) (mir_flags d (BinTape.parse_ref d))
+    | _ -> "BADCASE");
+  register "bt.chain" (function [hs] -> chain hs | _ -> "BADCASE");
+  (* model only: does the reference run take the only_empties branch with an odd remainder (finding L) *)
+  register "bt.odd" (function [h] -> if BinTapeMirror.odd_hit (bytes_of_hex h) then "1" else "0" | _ -> "BADCASE")
+(* <<< a_c03 *)
